@@ -298,3 +298,8 @@ theorem C02_empty_text_rejected (s : Spelling) (g : GState) (i k : Nat)
   simp [trimPrefixB]
 
 end Gtree
+
+namespace Gtree
+/-- non-vacuity of `C02_no_silent_loss`: the rows "- a", "  - b" carry the item texts a, b -/
+example : textsOf {} [[0x2D, 0x20, 0x61], [0x20, 0x20, 0x2D, 0x20, 0x62]] = [[0x61], [0x62]] := by decide
+end Gtree
